@@ -25,6 +25,7 @@ import (
 	"net/http/httptest"
 	neturl "net/url"
 	"os"
+	"sort"
 	"strconv"
 	"strings"
 	"sync"
@@ -362,6 +363,9 @@ func (s *server) RoundTrip(req *http.Request) (*http.Response, error) {
 		return mk(200, fmt.Sprintf(`{"access_token":"tok%d","token":"tok%d"}`, s.tokens, s.tokens)), nil
 	}
 	s.lastToken = false
+	if len(s.log) > 4000 {
+		panic("runaway: more than 4000 requests in one case") // (no case needs more than ~30)
+	}
 	b := behaviour{Kind: "S", Code: 200, Read: -1}
 	if s.pos < len(s.script) {
 		b = s.script[s.pos]
@@ -551,9 +555,28 @@ func (c *scriptCase) policy() retry.Policy {
 	}
 }
 
-func execScript(t *testing.T, c *scriptCase) scriptObs {
-	var obs scriptObs
+// wedged: a case that does not finish.  Under synctest a blocked bubble panics ("deadlock"), which
+// is turned into an oracle failure; a bubble that spins, or real I/O that hangs, is caught by a
+// wall-clock watchdog (generous: a case takes well under a millisecond) that records the case as
+// a failure with its replay and ends the run, so that the check reports instead of hanging.
+func watchdog(id string, replay any) *time.Timer {
+	return time.AfterFunc(90*time.Second, func() {
+		run.OracleFail(id, "wedged", "wedged: the case did not finish within 90 s of wall-clock time", replay)
+		run.Finish()
+		os.Exit(3)
+	})
+}
+
+func execScript(t *testing.T, c *scriptCase) (obs scriptObs) {
 	data := c.data()
+	wd := watchdog(fmt.Sprintf("w%d", run.Evaluations), c)
+	defer wd.Stop()
+	defer func() {
+		if r := recover(); r != nil {
+			// synctest: "deadlock: all goroutines in bubble are blocked"
+			obs.panicv, obs.res = r, "PANIC"
+		}
+	}()
 	synctest.Test(t, func(t *testing.T) {
 		srv := &server{start: time.Now(), script: c.Script}
 		var authClient *auth.Client
@@ -1745,7 +1768,17 @@ type realCase struct {
 }
 
 func realTransportScenario(c *realCase) {
+	// a scenario takes milliseconds; one that does not finish in 20 s is run once more (loaded
+	// machine?) and reported as wedged if it hangs again
+	if realTransportOnce(c, 20*time.Second) == "HANG" && realTransportOnce(c, 40*time.Second) == "HANG" {
+		run.OracleFail(run.NewID(), "wedged", "wedged: the request over the real transport did not return (twice)", c)
+	}
+}
+
+func realTransportOnce(c *realCase, limit time.Duration) string {
 	id := run.NewID()
+	wd := watchdog(id, c)
+	defer wd.Stop()
 	data := make([]byte, c.Size)
 	for i := range data {
 		data[i] = byte((i*31 + i/255) % 251)
@@ -1801,12 +1834,17 @@ func realTransportScenario(c *realCase) {
 	if c.OneShot {
 		body = &oneShot{bytes.NewReader(data)}
 	}
-	req, err := http.NewRequest(http.MethodPut, srv.URL+"/v2/r/blobs/uploads/1", body)
+	rctx, rcancel := context.WithTimeout(context.Background(), limit)
+	defer rcancel()
+	req, err := http.NewRequestWithContext(rctx, http.MethodPut, srv.URL+"/v2/r/blobs/uploads/1", body)
 	if err != nil {
 		panic(err)
 	}
 	req.ContentLength = int64(len(data))
 	resp, err := client.Do(req)
+	if err != nil && rctx.Err() != nil {
+		return "HANG"
+	}
 	res := "ERR"
 	if err == nil {
 		res = fmt.Sprintf("RESP%d", resp.StatusCode)
@@ -1832,6 +1870,7 @@ func realTransportScenario(c *realCase) {
 	if len(log) > 1 {
 		run.Nontrivial(fmt.Sprintf("real %+v", *c))
 	}
+	return res
 }
 
 func genReal(r *common.Rand) *realCase {
@@ -1977,5 +2016,34 @@ func TestVerif(t *testing.T) {
 	}
 	for i := 0; i < nPoints; i++ {
 		pointCaseRun(genPoint(r))
+	}
+	coverageFloors(t)
+}
+
+// coverageFloors: a run in which a stream produced (almost) nothing is a failure of the
+// correspondence layer, not a pass.
+func coverageFloors(t *testing.T) {
+	floors := map[string]int{
+		"op_T": 300, "op_A": 300, "op_W": 200, "op_V": 200, "op_U": 200, "op_u": 100, "op_X": 100, "op_Q": 100,
+		"op_AM": 20, "op_Tm": 20, "op_AI": 5, "op_Ti": 5,
+		"body_N": 100, "body_B": 100, "body_R": 100, "body_O": 100, "body_G": 100,
+		"result_ECTX": 100, "result_ENOTREWINDABLE": 20, "result_EGETBODY": 5, "result_EERR": 100, "result_EPRED": 20,
+		"result_ETOKEN": 10, "with_cancel": 300, "attempts_2": 300, "attempts_3": 100, "attempts_4": 30,
+		"enumerated": 1000, "enumerated_cancel_instants": 500, "enumerated_uploads": 1000, "enumerated_manifest": 20,
+		"point_BD": 500, "point_BP": 3000, "point_DP": 1000, "point_seen_W": 2000, "point_seen_FAIL": 100,
+		"real_transport": 4, "real_transport_complete_bodies": 2, "token_scenarios": 100, "oracle_only_default_policy": 100,
+		"token_attempts_2": 20,
+	}
+	var low []string
+	for k, min := range floors {
+		if run.Dist[k] < min {
+			low = append(low, fmt.Sprintf("%s=%d<%d", k, run.Dist[k], min))
+		}
+	}
+	if len(low) > 0 {
+		sort.Strings(low)
+		run.Finish()
+		fmt.Fprintln(os.Stderr, "coverage floor not reached:", strings.Join(low, " "))
+		os.Exit(4)
 	}
 }
